@@ -179,7 +179,7 @@ static void do_api(op_t op) {
             for (int i = 0; i < NM; i++) { mod_t *m = &MD[i]; if (!m->present) continue;
                 if (m->st == S_RUNNING) {
                     int held = m->batch_size > 0 || m->batch_tmo > 0 || m->ever_batched;
-                    for (int k = 0; k < NPAT; k++) if (m->sub[k].present && m->sub[k].prio == PR_LOW) held = 1;
+                    if (holds_low(i)) held = 1;
                     if (!held && ON(R_PS)) for (int k = 0; k < m->nmb; k++) if (!m->mb[k].optional && m->mb[k].kind == 0 && m->mb[k].msg < nmsg_stop_entry && !owed_excused(i, k))   /* sent before this call */
                         vfail("PS.owed", MSG[m->mb[k].msg].sys ? "PS.owed|sys" : "PS.owed", "the loop stopped but message #%d (topic %s) owed to RUNNING module %s was never handed over", m->mb[k].msg,
                               MSG[m->mb[k].msg].topic < NTOPIC ? TOPIC[MSG[m->mb[k].msg].topic] : "-", m->name);
@@ -340,6 +340,8 @@ static void do_api(op_t op) {
             if (tb_account(s, rc, &sn, "subscribe")) break;
             if (rc) vfail("SR.set", "SR.set|sub", "subscribe(%s) by %s returned %d (a repeated subscription is updated in place)", PAT[p], MD[s].name, rc);
             if (MD[s].sub[p].present && (MD[s].sub[p].prio != prio || MD[s].sub[p].oneshot != oneshot || MD[s].sub[p].dup != dup || MD[s].sub[p].af != af)) MD[s].life |= 1024;   /* replaced, not updated in place: a different path in the library */
+            if (MD[s].sub[p].present && MD[s].sub[p].dup) MD[s].life |= 32768;      /* what the re-subscription found in place is part of the path too: a DUP topic / auto-free user data die with it */
+            if (MD[s].sub[p].present && MD[s].sub[p].af) MD[s].life |= 65536;
             { int replaced = !MD[s].sub[p].present || MD[s].sub[p].prio != prio || MD[s].sub[p].oneshot != oneshot || MD[s].sub[p].dup != dup || MD[s].sub[p].af != af; int g = MD[s].sub[p].gen + (replaced ? 1 : 0);
               MD[s].sub[p] = (sub_t){ 1, prio, oneshot, upver, dup, af, g }; } MD[s].life |= 32;
         } else {
@@ -449,6 +451,7 @@ static void do_api(op_t op) {
         break; }
     /* ------------------------------------------------ environment / user-held */
     case O_ARM: MD[s].armed[op.b >> 5].act = op.b & 31; MD[s].armed[op.b >> 5].arg = op.d; break;
+    case O_HANGUP: if (UFD[op.a].wr >= 0) { __real_close(UFD[op.a].wr); UFD[op.a].wr = -1; UFD[op.a].hung = 1; UFD[op.a].hung_seen = 0; } break;      /* the peer closes its end */
     case O_READY: { char c = 'x'; if (__real_write(UFD[op.a].wr, &c, 1) == 1) UFD[op.a].bytes++; break; }
     case O_ADVANCE: if (adv_drains && api_depth == 1) { api_depth--; drain(); api_depth++; } shim_advance(ADV[op.a]); mt_advance(); break;
     case O_INJECT: if (op.a == INJ_CTL_DEL) shim_inject_ctl_del = 1; else if (op.a == INJ_WRITE_EAGAIN) shim_inject_write_eagain = 1 + op.b; else shim_inject_epoll_errno = op.a == INJ_EPOLL_EINTR ? EINTR : EBADF; break;
